@@ -195,10 +195,18 @@ class Stats:
 # ------------------------------------------------------------------------------ executing one case
 
 _OUT = io.StringIO()
+PROGRESS = [0]          # engines bump this at every dispatched event / interpreted operation
+_WD = {'last': 0, 'rearm': 0, 'limit': 0.0}
 
 
 def _alarm(signum, frame):
-    raise Watchdog()
+    # A case that is still dispatching events is slow, not hung: re-arm (bounded) instead of giving a verdict.
+    if PROGRESS[0] != _WD['last'] and _WD['rearm'] < 20:
+        _WD['last'] = PROGRESS[0]
+        _WD['rearm'] += 1
+        signal.setitimer(signal.ITIMER_VIRTUAL, _WD['limit'])
+        return
+    raise Watchdog('slow' if PROGRESS[0] != _WD['last'] else 'hung')
 
 
 def execute(mod, case, ctx, limit=None):
@@ -207,20 +215,23 @@ def execute(mod, case, ctx, limit=None):
     _OUT.truncate()
     if limit:
         # CPU time of this process, not wall-clock time: a loaded or paused machine must never look like a hang
+        _WD.update(last=PROGRESS[0], rearm=0, limit=limit)
         signal.signal(signal.SIGVTALRM, _alarm)
         signal.setitimer(signal.ITIMER_VIRTUAL, limit)
     try:
         with contextlib.redirect_stdout(_OUT):
             return mod.run_case(case, ctx)
-    except Watchdog:
+    except Watchdog as w:
+        if str(w) == 'slow':
+            raise Inconclusive('too slow')      # it kept making progress: a size problem of the case, never a verdict
         if getattr(mod, 'WATCHDOG_IS_VIOLATION', False) and not ctx.get('_confirming'):
             # confirm with three times the budget before believing it
             try:
                 return execute(mod, case, dict(ctx, _confirming=True), limit * 3)
             except Inconclusive:
-                raise Violation(f'{mod.ID}.watchdog', f'case consumed more than {limit * 3:.0f}s of CPU time twice without '
-                                'returning (statement: the run returns / the check completes); typical cases take '
-                                'milliseconds')
+                raise Violation(f'{mod.ID}.watchdog', f'no event was dispatched and no operation completed during {limit * 3:.0f}s '
+                                'of CPU time, twice (statement: the run returns / the check completes): a loop inside one '
+                                'event')
         raise Inconclusive('watchdog')
     except (Violation, Inconclusive):
         raise
